@@ -60,6 +60,7 @@ ASSUMPTIONS = [
 ]
 
 F2_SIG = "F2:sendmsg-empty-view-spin"
+F9_SIG = "F9:asyncio-writelines-empty-iterable"
 
 
 # ---------------------------------------------------------------------------------------------------------------
@@ -137,11 +138,40 @@ def drops_empty_views():
     raise runner.TranslateError("SocketStreamTransport.send_all_from_iterable not found")
 
 
+def adapter_guards_empty_iterable():
+    """AsyncioTransportStreamSocketAdapter.send_all_from_iterable: is transport.writelines() guarded against an empty list?"""
+    path = os.path.join(runner.REPO, "src/easynetwork/lowlevel/api_async/backend/_asyncio/stream/socket.py")
+    try:
+        tree = ast.parse(open(path).read())
+    except SyntaxError as exc:
+        raise runner.TranslateError(f"stream/socket.py does not parse: {exc}")
+
+    def is_writelines(node):
+        return (isinstance(node, ast.Expr) and isinstance(node.value, ast.Call) and isinstance(node.value.func, ast.Attribute)
+                and node.value.func.attr == "writelines")
+
+    for cls in tree.body:
+        if isinstance(cls, ast.ClassDef) and cls.name == "AsyncioTransportStreamSocketAdapter":
+            for fn in cls.body:
+                if isinstance(fn, ast.AsyncFunctionDef) and fn.name == "send_all_from_iterable":
+                    body = [st for st in fn.body if not (isinstance(st, ast.Expr) and isinstance(st.value, ast.Constant))]
+                    if any(is_writelines(st) for st in body):
+                        return False                       # unconditional writelines(iterable_of_data)
+                    for st in body:
+                        if isinstance(st, ast.If) and any(is_writelines(x) for x in ast.walk(st) if isinstance(x, ast.Expr)):
+                            return True
+                    raise runner.TranslateError("unrecognised shape of AsyncioTransportStreamSocketAdapter.send_all_from_iterable")
+    raise runner.TranslateError("AsyncioTransportStreamSocketAdapter.send_all_from_iterable not found")
+
+
 def params():
     flag = drops_empty_views()
+    guard = adapter_guards_empty_iterable()
     return ("(* True iff SocketStreamTransport.send_all_from_iterable drops empty views when building its deque "
             "(the F2 repair). *)\n"
-            f"Definition sendmsg_drops_empty_views : bool := {'true' if flag else 'false'}.\n")
+            f"Definition sendmsg_drops_empty_views : bool := {'true' if flag else 'false'}.\n"
+            "(* True iff the asyncio adapter does not call transport.writelines() with an empty list (the F9 repair). *)\n"
+            f"Definition asyncio_adapter_guards_empty_iterable : bool := {'true' if guard else 'false'}.\n")
 
 
 # ---------------------------------------------------------------------------------------------------------------
@@ -278,6 +308,8 @@ def signature(inp, failure):
     if failure.startswith("send does not terminate: socket called") and path == 1 and iov > 0 and inp[7] in (0, 2) \
             and any(len(c) == 0 for c in chunks):
         return F2_SIG
+    if failure.startswith("unexpected exception class (code 30)") and inp[7] == 3 and len(chunks) == 0:
+        return F9_SIG
     return "C04:" + failure.split(":")[0]
 
 
@@ -391,6 +423,22 @@ def cases(tier, rng, escalate):
                     path, iov = rng.choice([(0, 1), (1, 1), (1, 1024), (2, 1)])
                     s = [ANS["eagain"], ANS["s1"], ANS["eintr"], ANS["eagain"]][: rng.randint(1, 4)]
                     yield _case(path, iov, lengths, T, ri, s, [list(a) for a in sel], 0, ["timeouts"])
+    # asynchronous transports: asyncio adapter (impl 3, path 4) and async TLS backlog (impl 4, path 3)
+    tlsalpha = ["s1", "s2", "all", "s0", "eagain", "wantread", "reset"]
+    aioalpha = ["s1", "s2", "all", "s0", "eagain", "eintr"]
+    for lengths in lists:
+        if len(lengths) > 2 and rng.random() < (0.3 if thorough else 0.6):
+            continue
+        for k in range(0, 3):
+            for s in itertools.product(tlsalpha, repeat=k):
+                if k == 2 and rng.random() < 0.6:
+                    continue
+                yield _case(3, 1024, lengths, None, None, [ANS[a] for a in s], [], 4, ["exh-async-tls"])
+        for _ in range(4):
+            s = _rand_script(rng, aioalpha, rng.randint(0, 4))
+            for a in s:
+                a[2] = 0
+            yield _case(4, 1024, lengths, None, None, s, [], 3, ["asyncio-adapter"])
     # random volume
     n_random = 12000 if thorough else 2500
     for _ in range(n_random):
